@@ -736,3 +736,196 @@ def coc_on_pdu():
     return {'name': 'coc-on_pdu', 'kernel': 'bumble.l2cap.LeCreditBasedChannel.on_pdu',
             'bounds': 'one K-frame of 0..65535 bytes into an arbitrary receiver state (0.. bytes of an SDU pending, announced length 0..65535, peer credits 0..max, threshold < max <= 65535): credits fall by one and are refilled to max with exactly max - remaining when at or below the threshold (one credit frame at most); the SDU is delivered exactly when 2 + announced bytes are there (zero-length included), dropped whole on overflow, accumulated otherwise',
             'fn': fn, 'validate': validate, 'replay': replay, 'mutants': [(n, (lambda r=r: fn(r))) for n, r in muts]}
+
+
+# ================================================================================= C19: SDP continuation, AVDTP fragmentation
+def sdp_next_payload():
+    from bumble import sdp
+
+    def symbolic(repl=None, pin=None, out=None):
+        fn = func_ast(sdp.Server.get_next_response_payload, repl)
+        solver = z3.Solver()
+        solver.set('timeout', 60000)
+        it = Interp(solver, stubs={'logger': _LOGGER})
+        vc = VC(it, ('R', 'mx'))
+
+        def make_env(s):
+            R, mx = z3.Ints('R mx')
+            s.add(R >= 0, R <= 10 ** 6, mx >= 1, mx <= 65535)
+            for name, v in (pin or {}).items():
+                s.add({'R': R, 'mx': mx}[name] == v)
+            so = Obj(current_response=SBytes.base('resp', R))
+            return {'self': so, 'maximum_size': mx, 'Server': Obj(CONTINUATION_STATE='CONT')}, dict(R=R, mx=mx, so=so)
+
+        def on_path(env, ctx, it, ret):
+            R, mx, so = ctx['R'], ctx['mx'], ctx['so']
+            payload, cont = ret
+            rest = so.current_response
+            more = cont == 'CONT'
+            if out is not None:
+                out.append(_ints(None, it.solver, [payload.length(), (rest.length() if rest is not None else z3.IntVal(-1))]) + [more])
+                return
+            if more:
+                if rest is None or len(payload.segs) != 1 or len(rest.segs) != 1:
+                    ok = z3.BoolVal(False)
+                else:
+                    ok = z3.And(payload.length() == mx, rest.length() == R - mx, rest.length() >= 1, rest.segs[0][1] == mx, payload.segs[0][1] == 0)
+            else:
+                ok = z3.And(payload.length() == R, R <= mx, z3.BoolVal(rest is None), z3.BoolVal(isinstance(cont, SBytes) and env['__lits__'][cont.segs[0][0]] == [0]))
+            vc.must(ok)
+        it.explore(fn.body, make_env, on_path)
+        return vc, it
+
+    def real(R, mx):
+        sv = sdp.Server.__new__(sdp.Server)
+        whole = bytes(i % 251 for i in range(R))
+        sv.current_response = whole
+        payload, cont = sdp.Server.get_next_response_payload(sv, mx)
+        return whole, payload, cont, sv.current_response
+
+    def validate():
+        k = 0
+        for R, mx in ((0, 1), (1, 1), (2, 1), (40, 40), (41, 40), (1000, 48), (48, 1000)):
+            whole, payload, cont, rest = real(R, mx)
+            out = []
+            symbolic(pin={'R': R, 'mx': mx}, out=out)
+            want = [len(payload), (len(rest) if rest is not None else -1), cont != bytes([0])]
+            if len(out) != 1 or out[0] != want:
+                return False, f'mismatch at R={R} max={mx}: interpreter {out} vs real {want}'
+            k += 1
+        return True, f'{k} concrete (response, maximum) states agree with the real Server.get_next_response_payload'
+
+    def fn(repl=None):
+        vc, it = symbolic(repl)
+        return _status(vc, it)
+
+    def replay(model):
+        R, mx = int(model.get('R', 0)), int(model.get('mx', 1))
+        whole, payload, cont, rest = real(R, mx)
+        ok = payload + (rest or b'') == whole and len(payload) <= mx and ((rest is None) == (cont == bytes([0]))) and (rest is None or len(rest) >= 1)
+        return (not ok), f'real get_next_response_payload(len={R}, max={mx}) {"violates" if not ok else "satisfies"} the chunk oracle'
+
+    muts = [('boundary-chunk-announces-more', ('if len(self.current_response) > maximum_size:', 'if len(self.current_response) >= maximum_size:')),
+            ('rest-skips-a-byte', ('self.current_response[maximum_size:]', 'self.current_response[maximum_size + 1 :]'))]
+    return {'name': 'sdp-next-response-payload', 'kernel': 'bumble.sdp.Server.get_next_response_payload',
+            'bounds': 'response remainder 0..10^6 bytes, maximum 1..65535: the chunk is a prefix of at most `maximum` bytes, the rest is exactly what follows and is non-empty exactly when a continuation state is announced',
+            'fn': fn, 'validate': validate, 'replay': replay, 'mutants': [(n, (lambda r=r: fn(r))) for n, r in muts]}
+
+
+def avdtp_send_iteration():
+    from bumble import avdtp
+
+    SINGLE, START, CONT, END = 0, 1, 2, 3
+
+    def symbolic(repl=None, pin=None, out=None):
+        fn = func_ast(avdtp.Protocol.send_message, repl)
+        loop = first(fn, ast.While)
+        solver = z3.Solver()
+        solver.set('timeout', 60000)
+        it = Interp(solver, stubs={'logger': _LOGGER})
+        vc = VC(it, ('P', 'mtu', 'pt'))
+
+        def make_env(s):
+            P, mtu, pt = z3.Ints('P mtu pt')
+            mfs = z3.If(pt == SINGLE, mtu - 2, mtu - 3)
+            # state at the head of an iteration, as the code before the loop and the previous iteration leave it
+            s.add(P >= 0, P <= 10 ** 6, mtu >= 4, mtu <= 65535, pt >= 0, pt <= 3,
+                  z3.Implies(pt == SINGLE, P + 2 <= mtu), z3.Implies(pt == START, P + 2 > mtu),
+                  z3.Implies(pt == CONT, P > mfs), z3.Implies(pt == END, z3.And(P >= 1, P <= mfs)))
+            for name, v in (pin or {}).items():
+                s.add({'P': P, 'mtu': mtu, 'pt': pt}[name] == v)
+            written = []
+            so = Obj(PacketType=Obj(SINGLE_PACKET=SINGLE, START_PACKET=START, CONTINUE_PACKET=CONT, END_PACKET=END),
+                     l2cap_channel=Obj(peer_mtu=mtu, write=lambda d: written.append(d)))
+            env = {'self': so, 'payload': SBytes.base('msg', P), 'packet_type': pt, 'max_fragment_size': mfs, 'done': False,
+                   'transaction_label': z3.Int('tl'), 'message': Obj(message_type=z3.Int('mt'), signal_identifier=z3.Int('sig'))}
+            return env, dict(P=P, mtu=mtu, pt=pt, mfs=mfs, written=written)
+
+        def on_path(env, ctx, it, ret):
+            P, mtu, pt, mfs, written = (ctx[k] for k in ('P', 'mtu', 'pt', 'mfs', 'written'))
+            if len(written) != 1:
+                vc.must(z3.BoolVal(False))
+                return
+            w = written[0]
+            hdr = w.segs[0]
+            body = [sg for sg in w.segs if sg[0] == 'msg']
+            blen = body[0][2] if body else z3.IntVal(0)
+            bstart = body[0][1] if body else z3.IntVal(0)
+            lits = env['__lits__'][hdr[0]]
+            rest = env['payload']
+            done = env['done']
+            npt = env['packet_type']
+            ceil = lambda a, b: (a + b - 1) / b
+            if out is not None:
+                out.append(_ints(None, it.solver, [z3.IntVal(len(lits)), blen, rest.length(), (lits[2] if len(lits) == 3 else z3.IntVal(-1)), (npt if not done else z3.IntVal(-1))]))
+                return
+            ok = z3.And(
+                w.length() <= mtu, bstart == 0, blen == z3.If(P <= mfs, P, mfs), rest.length() == P - blen,
+                (rest.segs[0][1] == blen) if rest.segs else z3.BoolVal(True),
+                z3.IntVal(len(lits)) == z3.If(pt == SINGLE, 2, z3.If(pt == START, 3, 1)),
+                lits[1] == env['message'].signal_identifier if len(lits) >= 2 else z3.BoolVal(True),
+                # the announced packet count is the number of packets this and the following iterations send
+                (z3.Implies(pt == START, lits[2] == ceil(P, mfs))) if len(lits) == 3 else (pt != START),
+                z3.BoolVal(done is True) == (rest.length() == 0),
+                z3.BoolVal(True) if done else z3.And(npt == z3.If(rest.length() > mfs, CONT, END), pt != SINGLE, pt != END),
+                z3.Implies(z3.Or(pt == SINGLE, pt == END), z3.BoolVal(done is True)),
+                # the measure "packets still to send" falls by exactly one
+                z3.Implies(P >= 1, ceil(rest.length(), mfs) == ceil(P, mfs) - 1),
+                env['max_fragment_size'] == mfs)
+            vc.must(ok)
+        it.explore(loop.body, make_env, on_path, entry=lambda it, env: it.require(loop.test, env))
+        return vc, it
+
+    def real(P, mtu):
+        written = []
+        pr = avdtp.Protocol.__new__(avdtp.Protocol)
+        pr.l2cap_channel = Obj(peer_mtu=mtu, write=written.append)
+        payload = bytes(i % 251 for i in range(P))
+        msg = Obj(payload=payload, message_type=0, signal_identifier=5)
+        avdtp.Protocol.send_message(pr, 3, msg)
+        return payload, written
+
+    def real_ok(P, mtu):
+        payload, written = real(P, mtu)
+        if any(len(w) > mtu for w in written):
+            return False
+        if len(written) == 1 and (written[0][0] >> 2) & 3 == 0:
+            return written[0][2:] == payload
+        if (written[0][0] >> 2) & 3 != 1 or written[0][2] != len(written):
+            return False
+        types = [(w[0] >> 2) & 3 for w in written]
+        if types != [1] + [2] * (len(written) - 2) + [3]:
+            return False
+        return written[0][3:] + b''.join(w[1:] for w in written[1:]) == payload
+
+    def validate():
+        k = 0
+        for P, mtu, pt in ((0, 48, SINGLE), (46, 48, SINGLE), (47, 48, START), (100, 48, START), (90, 48, START)):
+            payload, written = real(P, mtu)
+            out = []
+            symbolic(pin={'P': P, 'mtu': mtu, 'pt': pt}, out=out)
+            w = written[0]
+            nh = 2 if pt == SINGLE else 3
+            nxt = -1 if len(written) == 1 else (w1 := (written[1][0] >> 2) & 3)
+            want = [nh, len(w) - nh, P - (len(w) - nh), (w[2] if pt == START else -1), nxt]
+            if len(out) != 1 or out[0] != want:
+                return False, f'mismatch at P={P} mtu={mtu}: interpreter {out} vs real {want}'
+            k += 1
+        return True, f'{k} concrete (payload, MTU) states agree with the first packet of the real Protocol.send_message'
+
+    def fn(repl=None):
+        vc, it = symbolic(repl)
+        return _status(vc, it)
+
+    def replay(model):
+        P, mtu = int(model.get('P', 0)), max(int(model.get('mtu', 4)), 4)
+        # the model is a loop-head state; the real function is run from the start with that payload/MTU (and every payload up to one more fragment)
+        bad = [p for p in {P, P + mtu - 3, P + 2 * (mtu - 3)} if not real_ok(p, mtu)]
+        return bool(bad), f'real send_message(payload {bad or P}, MTU {mtu}) {"violates" if bad else "satisfies"} the fragmentation oracle'
+
+    muts = [('packet-count-floor', ('max_fragment_size - 1 + len(payload)', 'len(payload)')),
+            ('end-packet-one-early', ('if len(payload) > max_fragment_size', 'if len(payload) >= max_fragment_size')),
+            ('fragment-over-mtu', ('payload[:max_fragment_size])', 'payload[: max_fragment_size + 3])'))]
+    return {'name': 'avdtp-send_message-iteration', 'kernel': 'bumble.avdtp.Protocol.send_message (while-loop body)',
+            'bounds': 'one iteration from any loop-head state: remaining payload 0..10^6, peer MTU 4..65535, packet type single/start/continue/end consistent with the remainder: packet <= MTU, fragment is the next min(remaining, max fragment) bytes, START announces ceil(remaining / max fragment) and that measure falls by one per iteration and reaches 0 exactly when the loop ends, CONTINUE/END chosen by the remainder',
+            'fn': fn, 'validate': validate, 'replay': replay, 'mutants': [(n, (lambda r=r: fn(r))) for n, r in muts]}
